@@ -29,21 +29,41 @@ struct Obs {
     codes: Vec<String>, wcodes: Vec<String>, multiline_fix: bool,
     /// labels of `invalid regular expression` errors that do not lie inside any REGEXP token of the CST
     re_outside: usize, cfg: u8, flaky: bool,
+    /// per label: (line, column) agrees with the oracle that splits lines at \n only / at \n, \r\n and lone \r
+    linecol: Vec<(bool, bool)>,
+    /// the diagnostic's own line/column is its first label's, and the `--> ..:L:C` of the rendered text too
+    head_ok: bool,
+    /// spans of the RULE_DECL nodes (parallel to `declared`) and of the labels of errors only
+    decl_spans: Vec<(usize, usize)>, err_labels: Vec<(usize, usize)>,
 }
 
-fn declared_rules(src: &[u8]) -> (Vec<String>, usize, Vec<(usize, usize)>) {
-    let mut regexps = vec![];
+fn declared_rules(src: &[u8]) -> (Vec<String>, usize, Vec<(usize, usize)>, Vec<(usize, usize)>) {
+    let mut regexps = vec![]; let mut dspans = vec![];
     let mut names = vec![]; let mut depth = 0usize; let mut max_depth = 0usize; let mut want_name = false;
     for e in CSTStream::from(Parser::new(src)) {
         match e {
-            Event::Begin { kind, .. } => { depth += 1; max_depth = max_depth.max(depth); if kind == SyntaxKind::RULE_DECL { want_name = true; } }
+            Event::Begin { kind, span } => { depth += 1; max_depth = max_depth.max(depth); if kind == SyntaxKind::RULE_DECL { want_name = true; dspans.push((span.start(), span.end())); } }
             Event::End { kind, .. } => { depth -= 1; if kind == SyntaxKind::RULE_DECL { if want_name { names.push(String::new()); } want_name = false; } }
             Event::Token { kind: SyntaxKind::REGEXP, span } => regexps.push((span.start(), span.end())),
             Event::Token { kind: SyntaxKind::IDENT, span } if want_name => { names.push(String::from_utf8_lossy(&src[span.range()]).to_string()); want_name = false; }
             _ => {}
         }
     }
-    (names, max_depth, regexps)
+    (names, max_depth, regexps, dspans)
+}
+
+/// (line, column) of a byte offset, lines and columns counted from 1, columns in characters.
+/// `universal` = false: a line ends at \n (what the report builder documents in its tests);
+/// true: at \n, at \r\n (once) and at a lone \r.
+fn line_col(text: &str, off: usize, universal: bool) -> (usize, usize) {
+    let b = text.as_bytes(); let mut line = 1usize; let mut start = 0usize; let mut i = 0usize;
+    while i < off.min(b.len()) {
+        if b[i] == b'\n' { line += 1; start = i + 1; }
+        else if universal && b[i] == b'\r' && !(i + 1 < b.len() && b[i + 1] == b'\n') { line += 1; start = i + 1; }
+        i += 1;
+    }
+    let col = text.get(start..off).map(|t| t.chars().count()).unwrap_or(0) + 1;
+    (line, col)
 }
 
 /// the compiler configurations every property of C09 is claimed for
@@ -75,7 +95,7 @@ fn observe(src: &[u8], cfg: u8) -> Obs {
     o.rendered_len = rendered.len();
     if let Err(e) = valid { o.utf8_err = Some((e.valid_up_to(), e.error_len())); }
     if valid.is_ok() {
-        let (d, m, r) = declared_rules(src); o.declared = d; o.max_depth = m; regexps = r;
+        let (d, m, r, ds) = declared_rules(src); o.declared = d; o.max_depth = m; regexps = r; o.decl_spans = ds;
         let ast = yara_x_parser::ast::AST::from(Parser::new(src));
         o.ast_rules = Some(ast.rules().map(|r| r.identifier.name.to_string()).collect());
     }
@@ -84,7 +104,29 @@ fn observe(src: &[u8], cfg: u8) -> Obs {
     o.add_ok = c.add_source(src).is_ok();
     o.nerr = c.errors().len(); o.nwarn = c.warnings().len();
     o.render_ok = true;
+    o.head_ok = true;
+    // line / column of every label against an independent computation from the byte span
+    let mut check_lines = |js: Option<serde_json::Value>, text: String, o: &mut Obs| {
+        let Some(js) = js else { return };
+        let labels = js["labels"].as_array().cloned().unwrap_or_default();
+        for l in &labels {
+            let (line, col, st) = (l["line"].as_u64().unwrap_or(0) as usize, l["column"].as_u64().unwrap_or(0) as usize, l["span"]["start"].as_u64().unwrap_or(0) as usize);
+            o.linecol.push(((line, col) == line_col(&rendered, st, false), (line, col) == line_col(&rendered, st, true)));
+        }
+        if let Some(f) = labels.first() {
+            if js["line"] != f["line"] || js["column"] != f["column"] { o.head_ok = false; }
+            // ` --> origin:L:C` of the rendered text
+            if let Some(p) = text.find("--> ") {
+                let head: String = text[p + 4..].chars().take_while(|c| *c != '\n').collect();
+                let mut it = head.rsplit(':');
+                let (c, l) = (it.next().and_then(|x| x.trim().parse::<u64>().ok()), it.next().and_then(|x| x.trim().parse::<u64>().ok()));
+                if l != js["line"].as_u64() || c != js["column"].as_u64() { o.head_ok = false; }
+            }
+        }
+    };
     for e in c.errors() {
+        check_lines(serde_json::to_value(e).ok(), e.to_string(), &mut o);
+        for l in e.labels() { o.err_labels.push((l.span().start(), l.span().end())); }
         // every way a diagnostic is rendered: Display, Debug, JSON
         if e.to_string().is_empty() || e.title().is_empty() || format!("{:?}", e).is_empty() { o.render_ok = false; }
         if serde_json::to_string(e).map(|s| s.is_empty()).unwrap_or(true) { o.render_ok = false; }
@@ -99,6 +141,7 @@ fn observe(src: &[u8], cfg: u8) -> Obs {
         }
     }
     for w in c.warnings() {
+        check_lines(serde_json::to_value(w).ok(), w.to_string(), &mut o);
         if w.to_string().is_empty() || w.title().is_empty() || format!("{:?}", w).is_empty() { o.render_ok = false; }
         if serde_json::to_string(w).map(|s| s.is_empty()).unwrap_or(true) { o.render_ok = false; }
         o.wcodes.push(w.code().to_string());
@@ -123,13 +166,16 @@ fn observe(src: &[u8], cfg: u8) -> Obs {
 
 fn obs_json(o: &Obs) -> String {
     let strs = |v: &Vec<String>| format!("[{}]", v.iter().map(|s| json_str(s)).collect::<Vec<_>>().join(","));
-    format!("{{\"panicked\":{},\"add_ok\":{},\"nerr\":{},\"nwarn\":{},\"render_ok\":{},\"build_ok\":{},\"labels\":[{}],\"rendered_len\":{},\"declared\":{},\"built\":{},\"ignored\":{},\"ast_rules\":{},\"utf8_err\":{},\"e032_span\":{},\"max_depth\":{},\"codes\":{},\"wcodes\":{},\"multiline_fix\":{},\"re_outside\":{},\"cfg\":{}}}",
+    format!("{{\"panicked\":{},\"add_ok\":{},\"nerr\":{},\"nwarn\":{},\"render_ok\":{},\"build_ok\":{},\"labels\":[{}],\"rendered_len\":{},\"declared\":{},\"built\":{},\"ignored\":{},\"ast_rules\":{},\"utf8_err\":{},\"e032_span\":{},\"max_depth\":{},\"codes\":{},\"wcodes\":{},\"multiline_fix\":{},\"re_outside\":{},\"cfg\":{},\"linecol\":[{}],\"head_ok\":{},\"decl_spans\":[{}],\"err_labels\":[{}]}}",
         match &o.panicked { Some(m) => json_str(m), None => "null".into() }, o.add_ok, o.nerr, o.nwarn, o.render_ok, o.build_ok,
         o.labels.iter().map(|(a, b, x, y)| format!("[{},{},{},{}]", a, b, x, y)).collect::<Vec<_>>().join(","), o.rendered_len,
         strs(&o.declared), strs(&o.built), strs(&o.ignored),
         match &o.ast_rules { Some(v) => strs(v), None => "null".into() },
         match &o.utf8_err { Some((v, Some(n))) => format!("[{},{}]", v, n), Some((v, None)) => format!("[{},null]", v), None => "null".into() },
-        match &o.e032_span { Some((a, b)) => format!("[{},{}]", a, b), None => "null".into() }, o.max_depth, strs(&o.codes), strs(&o.wcodes), o.multiline_fix, o.re_outside, o.cfg)
+        match &o.e032_span { Some((a, b)) => format!("[{},{}]", a, b), None => "null".into() }, o.max_depth, strs(&o.codes), strs(&o.wcodes), o.multiline_fix, o.re_outside, o.cfg,
+        o.linecol.iter().map(|(a, b)| format!("[{},{}]", a, b)).collect::<Vec<_>>().join(","), o.head_ok,
+        o.decl_spans.iter().map(|(a, b)| format!("[{},{}]", a, b)).collect::<Vec<_>>().join(","),
+        o.err_labels.iter().map(|(a, b)| format!("[{},{}]", a, b)).collect::<Vec<_>>().join(","))
 }
 
 fn obs_from_json(s: &str) -> Option<Obs> {
@@ -145,6 +191,10 @@ fn obs_from_json(s: &str) -> Option<Obs> {
         utf8_err: v["utf8_err"].as_array().map(|a| (a[0].as_u64().unwrap() as usize, a[1].as_u64().map(|x| x as usize))),
         e032_span: v["e032_span"].as_array().map(|a| (a[0].as_u64().unwrap() as usize, a[1].as_u64().unwrap() as usize)),
         max_depth: v["max_depth"].as_u64()? as usize, codes: strs(&v["codes"])?, wcodes: strs(&v["wcodes"]).unwrap_or_default(), multiline_fix: v["multiline_fix"].as_bool().unwrap_or(false), re_outside: v["re_outside"].as_u64().unwrap_or(0) as usize, cfg: v["cfg"].as_u64().unwrap_or(0) as u8, flaky: false,
+        linecol: v["linecol"].as_array().map(|a| a.iter().map(|x| (x[0].as_bool().unwrap_or(false), x[1].as_bool().unwrap_or(false))).collect()).unwrap_or_default(),
+        head_ok: v["head_ok"].as_bool().unwrap_or(true),
+        decl_spans: v["decl_spans"].as_array().map(|a| a.iter().map(|x| (x[0].as_u64().unwrap_or(0) as usize, x[1].as_u64().unwrap_or(0) as usize)).collect()).unwrap_or_default(),
+        err_labels: v["err_labels"].as_array().map(|a| a.iter().map(|x| (x[0].as_u64().unwrap_or(0) as usize, x[1].as_u64().unwrap_or(0) as usize)).collect()).unwrap_or_default(),
     })
 }
 
@@ -201,7 +251,9 @@ fn run_in_children(cases: &[(u8, Vec<u8>)], dir: &Path) -> Vec<Obs> {
 fn time_limit(src: &[u8]) -> u64 {
     let s = String::from_utf8_lossy(src);
     let huge = s.split('[').skip(1).any(|t| { let d: String = t.chars().take_while(|c| c.is_ascii_digit()).collect(); d.len() >= 9 });
-    if huge { 8 } else { CASE_TIMEOUT_S }
+    // nested function calls are parsed in exponential time (known finding)
+    let nested_calls = s.contains("f(f(f(f(f(f(f(f(f(f(f(f(");
+    if huge || nested_calls { 8 } else { CASE_TIMEOUT_S }
 }
 
 fn run_in_children_once(cases: &[(u8, Vec<u8>)], limits: &[u64], dir: &Path) -> Vec<Obs> {
@@ -265,6 +317,12 @@ fn corpus(thorough: bool) -> Vec<(String, Vec<u8>)> {
     add("corpus", b"rule r { strings: $a = { 01 [0-4294967295][0-1] 02 } condition: $a }".to_vec());
     if thorough { add("corpus", b"rule r { strings: $a = { 01 [4294967295][1] 02 } condition: $a }".to_vec()); }
     add("corpus", b"rule r { condition: -(-9223372036854775807 - 1) == 0 }".to_vec());
+    // parse time exponential in the nesting of function calls: no answer within the time limit
+    add("corpus", format!("rule r {{ condition: {}1{} == 1 }}", "f(".repeat(14), ")".repeat(14)).into_bytes());
+    // one source, rules of mixed fate: a compile error in one rule and a syntax error in another
+    add("corpus", b"rule a { condition: undefined_ident } rule b { condition: true true } rule c { condition: true }".to_vec());
+    add("corpus", b"rule a { condition: true true }\r\nrule b { condition: undefined_ident }\r\nrule c { condition: true }\r\n".to_vec());
+    add("corpus", b"rule a {\r\n condition:\r\n  foo\r\n}\rrule b {\r condition:\r  $x\r}\n\nrule c { condition:\n \"\xc3\xa9\xf0\x9f\x98\x80\" == bar }".to_vec());
     // compile time proportional to the value of a fixed jump: no answer within the time limit
     add("corpus", b"rule r { strings: $a = { 01 [4294967295] 02 } condition: $a }".to_vec());
     // invalid byte as the last byte of the source
@@ -430,6 +488,44 @@ fn token_sweep() -> Vec<(String, Vec<u8>)> {
     out
 }
 
+/// several rules of mixed fate in one source, in every order: fine, compile error, syntax error, ignored
+/// (depends on the ignored/unknown module), too deep for the AST
+fn gen_mixed_fate(rng: &mut Rng) -> Vec<u8> {
+    let k = 2 + rng.below(4) as usize;
+    let mut s = String::new();
+    if rng.chance(1, 3) { s.push_str("import \"pe\"\n"); }
+    for i in 0..k {
+        let body = match rng.below(9) {
+            0 | 1 => format!("rule m{} {{ condition: true }}", i),
+            2 => format!("rule m{} {{ strings: $a = \"x\" condition: $a }}", i),
+            3 => format!("rule m{} {{ condition: {} }}", i, rng.pick(&["undefined_ident", "$nope", "1 + \"s\" == 2", "m99", "uint8(\"x\")"])),
+            4 => format!("rule m{} {{ strings: $a = \"x\" condition: true }}", i),                       // unused pattern
+            5 => format!("rule m{} {{ condition: {} }}", i, rng.pick(&["true true", "( true", "1 +", "for any i in (1, 2, ) : ( true )", "and", "$a at", "1 of (true, )"])),
+            6 => format!("rule m{} {{ {} condition: true }}", i, rng.pick(&["strings: $a = condition", "meta: a = ", "strings: $a = { zz }", "meta: = 1"])),
+            7 => format!("rule m{} {{ condition: pe.is_pe and pe.number_of_sections > {} }}", i, rng.below(9)),
+            _ => format!("rule m{} {{ condition: {}true{} }}", i, "(".repeat(800), ")".repeat(800)),
+        };
+        s.push_str(&body);
+        s.push_str(*rng.pick(&[" ", "\n", "\n\n", "\r\n", "\t", " // c\n", ""]));
+    }
+    s.into_bytes()
+}
+
+/// line endings: rewrite the \n of a source as CRLF / lone CR / a mix, and break some lines
+fn vary_newlines(rng: &mut Rng, src: &[u8]) -> Vec<u8> {
+    let mode = rng.below(4);
+    let mut out = Vec::with_capacity(src.len() + 16);
+    let mut in_str = false;
+    for (i, b) in src.iter().enumerate() {
+        if *b == b'"' && (i == 0 || src[i - 1] != b'\\') { in_str = !in_str; }
+        let nl: &[u8] = match mode { 0 => b"\r\n", 1 => b"\r", 2 => *rng.pick(&[&b"\n"[..], b"\r\n", b"\r", b"\r\r\n", b"\n\r"]), _ => b"\r\n" };
+        if *b == b'\n' { out.extend_from_slice(nl); }
+        else if *b == b' ' && !in_str && rng.chance(1, 6) { out.extend_from_slice(nl); }
+        else { out.push(*b); }
+    }
+    out
+}
+
 fn main() { let args: Vec<String> = std::env::args().skip(1).collect(); std::process::exit(run(&args)); }
 
 fn run(args: &[String]) -> i32 {
@@ -486,8 +582,9 @@ fn run(args: &[String]) -> i32 {
     let mut generated = 0usize;
     while generated < n {
         generated += 1;
-        let c = match rng.below(25) {
+        let c = match rng.below(30) {
             19..=24 => ("regexp_error".to_string(), gen_regexp_error(&mut rng)),
+            25..=29 => ("mixed_fate".to_string(), gen_mixed_fate(&mut rng)),
             12 | 13 => ("long_token_error".to_string(), gen_long_token_error(&mut rng)),
             14 | 15 => ("int_literal_position".to_string(), gen_int_literal_position(&mut rng)),
             16 | 18 => ("multiline_fix".to_string(), gen_multiline_fix(&mut rng)),
@@ -514,11 +611,14 @@ fn run(args: &[String]) -> i32 {
             }
             _ => gen_source(&mut rng),
         };
+        // a third of the sources get other line endings (CRLF, lone CR, mixed) and more line breaks
+        let c = if rng.chance(1, 3) && std::str::from_utf8(&c.1).is_ok() { (c.0, vary_newlines(&mut rng, &c.1)) } else { c };
         // every generated source under the default configuration and under two of the others (rotating);
         // regexps always also with relaxed_re_syntax
         let (k, m) = (generated, (N_CFG - 1) as usize);
         let mut cfgs = vec![0u8, (1 + k % m) as u8, (1 + (k / m + k + 2) % m) as u8];
         if c.0 == "regexp_error" { cfgs.push(1); }
+        if c.0 == "mixed_fate" { cfgs.push(4); }
         cfgs.sort(); cfgs.dedup();
         for cfg in cfgs { cases.push((c.0.clone(), c.1.clone(), cfg)); }
     }
@@ -546,10 +646,12 @@ fn run(args: &[String]) -> i32 {
                 match &o.e032_span { Some((a, b)) => format!("Some ({}, {})", a, b), None => "None".into() }),
             _ => "None".into(),
         };
-        let case = format!("mkCase {} {} {} {}%nat {}%nat {} {} {} {} {} {} {} {} {} {}%nat",
+        let case = format!("mkCase {} {} {} {}%nat {}%nat {} {} {} {} {} {} {} {} {} {}%nat {} {} {} {}",
             coq_bool(o.crashed || o.timed_out), coq_bool(o.panicked.is_some()), coq_bool(o.add_ok), o.nerr, o.nwarn, coq_bool(o.render_ok), coq_bool(o.build_ok),
             coq_list(&o.labels, |(a, b, x, y)| format!("({}, {}, {}, {})", a, b, coq_bool(*x), coq_bool(*y))), o.rendered_len,
-            declared, built, ignored, ast_rules, utf8, o.re_outside);
+            declared, built, ignored, ast_rules, utf8, o.re_outside,
+            coq_list(&o.linecol, |(a, b)| format!("({}, {})", coq_bool(*a), coq_bool(*b))), coq_bool(o.head_ok),
+            coq_list(&o.decl_spans, |(a, b)| format!("({}, {})", a, b)), coq_list(&o.err_labels, |(a, b)| format!("({}, {})", a, b)));
         let shown = if src.len() > 400 { format!("{}...({} bytes)", String::from_utf8_lossy(&src[..200]), src.len()) } else { String::from_utf8_lossy(src).to_string() };
         let replay = format!("{{\"stream\":{},\"cfg\":{},\"cfg_name\":\"{}\",\"source_hex\":\"{}\",\"source_lossy\":{},\"crashed\":{},\"timed_out\":{},\"obs\":{},\"violations\":[{}]}}",
             json_str(stream), cfg, cfg_name(*cfg), if src.len() <= 20000 { hex(src) } else { String::new() }, json_str(&shown), o.crashed, o.timed_out, obs_json(o),
@@ -567,6 +669,8 @@ fn run(args: &[String]) -> i32 {
         for c in &o.codes { stats.inc(&format!("code_{}", c)); }
         for c in &o.wcodes { stats.inc(&format!("warn_{}", c)); }
         if o.multiline_fix { stats.inc("fix_spans_several_lines"); }
+        if !o.linecol.is_empty() && src.contains(&b'\r') { stats.inc("diagnostics_in_source_with_cr"); }
+        if o.declared.len() >= 2 && o.nerr > 0 && !o.built.is_empty() { stats.inc("mixed_fate_observed"); }
         if src.len() >= 10 { distinct.insert(src.clone()); }
         if samples.len() < 3 && o.nerr > 0 && src.len() < 300 { samples.push(replay.clone()); }
         shards.push(case, replay);
@@ -591,9 +695,15 @@ fn spec_violations(o: &Obs) -> Vec<String> {
         else if !x || !y { v.push(format!("label span {a}..{b} not on character boundaries")); }
     }
     if o.re_outside > 0 { v.push(format!("{} label(s) of an `invalid regular expression` error neither lie inside a regexp literal of the source nor contain one", o.re_outside)); }
-    if o.nerr == 0 {
-        for d in &o.declared { if !o.built.contains(d) && !o.ignored.contains(d) {
-            v.push(format!("rule `{}` was declared, the source was accepted without errors, but the rule is neither built nor ignored (expected: {} rules accounted for; actual: built={:?} ignored={:?})", d, o.declared.len(), o.built, o.ignored)); } }
+    for (i, (a, b)) in o.linecol.iter().enumerate() {
+        if !a && !b { v.push(format!("label {i}: the reported line/column does not designate the start of its span (neither with lines ending at \\n nor with \\n, \\r\\n and lone \\r)")); }
+    }
+    // per rule: built, or ignored, or covered by an error located inside the rule
+    for (i, d) in o.declared.iter().enumerate() {
+        let (s, e) = o.decl_spans.get(i).copied().unwrap_or((0, usize::MAX));
+        let covered = o.err_labels.iter().any(|(a, b)| *a <= e && s <= *b);
+        if !o.built.contains(d) && !o.ignored.contains(d) && !covered {
+            v.push(format!("rule `{}` ({}..{}) was declared but it is neither built, nor ignored, nor covered by an error located in it (built={:?} ignored={:?} errors at {:?})", d, s, e, o.built, o.ignored, o.err_labels)); }
     }
     v
 }
